@@ -47,6 +47,32 @@ func knownClassPt(f *fmtG, why string, sub bool) string {
 	return ""
 }
 
+// pinned returns, for a string the acceptance predicate rejects for a reason that falls in a listed
+// known finding, the one deviating behaviour that finding tolerates: acceptance with exactly the
+// coordinates the bytes carry (F5: the raw (x,y) as written; F41: the curve point the bytes denote,
+// i.e. the verdict of the predicate without the subgroup clause). Everything else - another value, a
+// panic, wrong counters, acceptance of any other rejected string - remains a violation: the caller
+// accepts either the correct behaviour (error) or exactly this verdict.
+func (f *fmtG) pinned(b []byte, v verdict, sub bool) (verdict, string) {
+	kf := knownClassPt(f, v.why, sub)
+	if v.ok || kf == "" || !rep.Known("C07", kf) {
+		return verdict{}, ""
+	}
+	switch kf {
+	case kF5:
+		x, y := f.getCoord(b[:f.S]), f.getCoord(b[f.S:2*f.S])
+		return verdict{ok: true, pt: ref.Pt{X: x, Y: y}, n: 2 * f.S, raw: true, why: "pinned_F5", kind: kRaw}, kf
+	case kF41:
+		w := f.decodeCached(b, false)
+		if !w.ok {
+			panic("c07: F41 class member is not a curve point")
+		}
+		w.why = "pinned_F41"
+		return w, kf
+	}
+	return verdict{}, ""
+}
+
 // TestC07_ProbeF5 re-observes F5: with NoSubgroupChecks() a raw (x,y) that is not on the curve decodes
 // without error (single point and inside a slice).
 func TestC07_ProbeF5(t *testing.T) {
@@ -75,6 +101,14 @@ func TestC07_ProbeF5(t *testing.T) {
 			err := reg.Err(reg.M(s.newDecoder(bytes.NewReader(c.b), true), "Decode", dst.Interface()))
 			if err == nil {
 				seen = append(seen, f.Name+" "+c.kind[:strings.Index(c.kind, ":")])
+				// the tolerated deviation is exactly: the point carries the coordinates as written
+				el := dst.Interface()
+				if dst.Elem().Kind() == reflect.Slice {
+					el = dst.Elem().Index(1).Addr().Interface()
+				}
+				if !f.sameAsRef(el, bad) || !bytes.Equal(libBytes(el, true), one) {
+					t.Fatalf("%s: off-curve raw point accepted under NoSubgroupChecks but decoded to other coordinates: %v", f.Name, el)
+				}
 			}
 			// with subgroup checks the same bytes must be refused
 			dst = reflect.New(s.goType(c.kind))
@@ -110,6 +144,9 @@ func TestC07_ProbeF41(t *testing.T) {
 				lib := f.G.NewAff()
 				if _, err := libSetBytes(lib, f.encode(p, raw)); err == nil {
 					seen = append(seen, fmt.Sprintf("%s raw=%v", g, raw))
+					if !f.sameAsRef(lib, p) {
+						t.Fatalf("%s: order-3 point accepted but decoded to other coordinates: %v", g, lib)
+					}
 				}
 			}
 		}
@@ -119,6 +156,21 @@ func TestC07_ProbeF41(t *testing.T) {
 			lib := f.G.NewAff()
 			if _, err := libSetBytes(lib, f.encode(q, true)); err == nil {
 				seen = append(seen, g+" order 3r")
+			}
+		}
+		// any other cofactor component must still be refused: generic curve points ([3r]P != O)
+		for _, p := range f.pool().cof {
+			if f.subClass(p) != "out" {
+				continue
+			}
+			for _, q := range []ref.Pt{p, f.G.E.Add(p, f.pool().tors3[0])} {
+				if f.subClass(q) != "out" {
+					continue
+				}
+				lib := f.G.NewAff()
+				if _, err := libSetBytes(lib, f.encode(q, true)); err == nil {
+					t.Fatalf("%s: a curve point with [3r]P != O passes the decoder's subgroup check: %s", g, f.G.E.Str(q))
+				}
 			}
 		}
 		rep.Count("C07_ProbeF41", "probe:"+g, 5, 5, g)
